@@ -7,7 +7,7 @@ import (
 
 // DispatchForms are the ways a function body can transfer control to a target function (C12, C18).
 var DispatchForms = []string{"static", "fvar", "ffield", "fslice", "fmap", "closure", "mvalue", "mexpr", "iface", "ifacePtr", "embedded",
-	"generic", "deferred", "go", "goClosure", "fparam", "deferArg", "goArg", "ifaceWiden", "globalInit", "retFunc", "chanFunc", "ifaceTwo", "ifaceShared", "mapKeyIface", "mapKeyPtr", "mapKeyChan", "mapKeyField"}
+	"generic", "deferred", "go", "goClosure", "fparam", "deferArg", "goArg", "ifaceWiden", "globalInit", "retFunc", "chanFunc", "ifaceTwo", "ifaceShared", "mapKeyIface", "mapKeyPtr", "mapKeyChan", "mapKeyField", "namedArrRange", "namedArrIndex", "namedArrIface", "namedSlice", "namedMap"}
 
 type dform struct {
 	decls []string
@@ -132,6 +132,27 @@ func dispatch(form string, n int, target string) dform {
 		s("b%d := &B%d{subs: map[I]struct{}{}}", n, n)
 		s("b%d.add(&W%d{})", n, n)
 		s("b%d.all()", n)
+	case "namedArrRange":
+		// callables held in a NAMED array type used by value (ssa.Index, not IndexAddr)
+		d("type ST%d [2]func()", n)
+		s("arr%d := ST%d{Other, %s}", n, n, target)
+		s("for _, f%d := range arr%d {\n\tf%d()\n}", n, n, n)
+	case "namedArrIndex":
+		d("type ST%d [2]func()\nfunc build%d() ST%d {\n"+fmt.Sprintf(enter, fmt.Sprintf("build%d", n))+"\treturn ST%d{Other, %s}\n}", n, n, n, n, target)
+		s("build%d()[1]()", n)
+	case "namedArrIface":
+		d("type W%d struct{}\nfunc (W%d) M() {\n"+fmt.Sprintf(enter, fmt.Sprintf("W%d.M", n))+"\t%s()\n}", n, n, target)
+		d("type SI%d [1]I", n)
+		s("ai%d := SI%d{W%d{}}", n, n, n)
+		s("for _, v%d := range ai%d {\n\tv%d.M()\n}", n, n, n)
+	case "namedSlice":
+		d("type FS%d []func()", n)
+		s("sl%d := FS%d{Other, %s}", n, n, target)
+		s("sl%d[1]()", n)
+	case "namedMap":
+		d("type FM%d map[string]func()", n)
+		s("nm%d := FM%d{\"k\": %s}", n, n, target)
+		s("nm%d[\"k\"]()", n)
 	case "mapKeyPtr":
 		d("type H%d struct{ F func() }", n)
 		s("mp%d := map[*H%d]bool{}", n, n)
